@@ -892,6 +892,26 @@ def install(interp):
     torch.softmax = f_softmax
     torch.isin = lambda el, tests: _t(el).map(lambda a: s_or(*[s_cmp('==', a, b) for b in _t(tests).els]))
     torch.manual_seed = lambda *a: None
+    torch.outer = lambda a, b: Tensor((_t(a).shape[0], _t(b).shape[0]), [s_mul(x, y) for x in _t(a).els for y in _t(b).els])
+    torch.ger = torch.outer
+    torch.kron = lambda a, b: torch.outer(_t(a).flatten(), _t(b).flatten()).flatten() if len(_t(a).shape) == 1 and len(_t(b).shape) == 1 else _unsupported('kron of matrices')
+    torch.tile = lambda t, dims: _t(t).repeat(*dims)
+    torch.repeat_interleave = lambda t, repeats, dim=None: _repeat_interleave(_t(t), repeats, dim)
+    torch.sign = lambda t: _t(t).map(lambda a: s_ite(s_cmp('>', a, 0), 1.0, s_ite(s_cmp('<', a, 0), -1.0, 0.0)))
+    torch.square = lambda t: _t(t).mul(_t(t))
+    torch.reciprocal = lambda t: _t(t).rdiv(1.0)
+    torch.cumsum = lambda t, dim=0: along_dim(_t(t), dim, _cumsum)
+    torch.count_nonzero = lambda t, dim=None: _t(t).ne(0).map(lambda b: s_ite(as_bool(b), 1, 0)).sum(dim)
+    torch.masked_select = lambda t, m: _t(t)[m.expand_to(_t(t).shape)] if m.shape != _t(t).shape else _t(t).flatten()[m.flatten()]
+    torch.index_select = lambda t, dim, idx: _t(t)._select(_t(t)._norm_dim(dim), [concretize_int(i) for i in _t(idx).els])
+    torch.hstack = lambda ts: cat([_t(x) for x in ts], 0 if len(_t(ts[0]).shape) == 1 else 1)
+    torch.vstack = lambda ts: cat([_t(x) if len(_t(x).shape) > 1 else _t(x).unsqueeze(0) for x in ts], 0)
+    torch.numel = lambda t: _t(t).numel()
+    torch.broadcast_to = lambda t, shape: _t(t).expand_to(tuple(shape))
+    torch.zeros_like = like(0.0)
+    torch.full_like = lambda t, v, **kw: Tensor.full(_t(t).shape, v)
+    torch.allclose = lambda a, b, rtol=1e-05, atol=1e-08, equal_nan=False: s_and(*[as_bool(e) for e in torch.isclose(a, b, rtol, atol).els])
+    torch.equal = lambda a, b: (_t(a).shape == _t(b).shape) and s_and(*[as_bool(e) for e in _t(a).eq(b).els])
 
     def t_argsort(t, dim=-1, descending=False, stable=False):
         t = _t(t)
@@ -1040,6 +1060,28 @@ def install(interp):
                         'enum_Enum': ENUM, 'networkx': I.Missing('networkx'), 'os': I.Missing('os'), 'sys': I.Missing('sys'),
                         'collections': I.NS('collections', OrderedDict=dict, defaultdict=I.Missing('defaultdict'), UserDict=USERDICT)})
     interp.builtins = make_builtins(interp)
+
+
+def _unsupported(msg):
+    raise Unsupported(msg)
+
+
+def _cumsum(xs):
+    out = []
+    acc = 0
+    for x in xs:
+        acc = s_add(acc, x)
+        out.append(acc)
+    return out
+
+
+def _repeat_interleave(t, repeats, dim):
+    if dim is None:
+        t = t.flatten()
+        dim = 0
+    r = concretize_int(repeats.item() if isinstance(repeats, Tensor) else repeats)
+    d = t._norm_dim(dim)
+    return t._select(d, [i for i in range(t.shape[d]) for _ in range(r)])
 
 
 def _div(a, b, mode):
